@@ -153,6 +153,16 @@ def derive(old, how, delta, shift):  # noqa: C901  pylint: disable=too-many-bran
             return {"type": "CircularRegion", "cx": cx, "cy": cy, "r": min(x2 - x1, y2 - y1) / 2 + delta}
         return {"type": "CircularRegion", "cx": cx + shift, "cy": cy, "r": math.hypot(x2 - cx, y2 - cy) + abs(shift) + delta}
     cx, cy, r = old["cx"], old["cy"], old["r"]
+    if how in ("diag_in", "diag_cut"):
+        # a larger disc whose centre lies diagonally from the old one: internally tangent (plus delta), or cutting off a cap of
+        # the old disc although its four axis-extreme points are still inside
+        a = max(r, 0.5) * (1.0 + abs(shift))
+        b = a if shift >= 0 else a / 2
+        far = math.hypot(a, b) + r
+        if how == "diag_in":
+            return {"type": "CircularRegion", "cx": cx - a, "cy": cy - b, "r": far + delta}
+        ext = max(math.hypot(a + r, b), math.hypot(a, b + r))
+        return {"type": "CircularRegion", "cx": cx - a, "cy": cy - b, "r": (ext + far) / 2 if r > 0 else far}
     if how == "grow":
         return {"type": "CircularRegion", "cx": cx, "cy": cy, "r": r + delta}
     if how == "shrink":
@@ -172,7 +182,7 @@ def derive(old, how, delta, shift):  # noqa: C901  pylint: disable=too-many-bran
 
 
 HOWS = ["grow", "grow", "shrink", "shift", "grow_one_side", "circum", "circum", "circum_minus", "inscr", "other",
-        "cut0", "cut1", "cut2", "cut3"]
+        "cut0", "cut1", "cut2", "cut3", "diag_in", "diag_cut", "diag_cut"]
 
 
 def machine(tier, col):  # pylint: disable=unused-argument
